@@ -20,7 +20,8 @@ global size_of usize == 8;
 //@include prelude/iter_spec.rs
 //@item src/pwl/iter.rs | struct PolyhedraGen | pub-fields | no-debug
 //@item src/pwl/impl_infeasible_elim.rs | struct PerformanceCounter | no-debug
-//@include prelude/lp_oracle_spec.rs
+//@include prelude/tol_spec.rs
+//@include prelude/lp_oracle_tol_spec.rs
 //@include prelude/forward_spec.rs
 //@include prelude/reach_spec.rs
 //@include prelude/sem_spec.rs
@@ -29,6 +30,7 @@ global size_of usize == 8;
 //@include prelude/regions_spec.rs
 //@include prelude/elim_region_spec.rs
 //@include prelude/elim_decided_spec.rs
+//@include prelude/wit_spec.rs
 
 impl DfsNodeData {
 //@assumed units/pwl_regions.rs | extract
@@ -74,6 +76,8 @@ impl<A: Float> PolytopeG<A> {
         ensures r.ok(), r.mat.ncols() == dim,
             // ASSUMED (rows are concatenated; bounded: bc poly): the intersection of the parts
             forall|x: V| x.len() == dim ==> (#[trigger] r.sat(x) <==> forall|k: int| 0 <= k < polys@.len() ==> (#[trigger] polys@[k]).sat(x)),
+            // ASSUMED (same reason: every row of the result is a row of a part): a point tolerated by the result is tolerated by every part
+            forall|w: Array1<f64>| #[trigger] contains_tol(r, w) ==> forall|k: int| 0 <= k < polys@.len() ==> contains_tol(#[trigger] polys@[k], w),
     { unimplemented!() }
 }
 
@@ -187,7 +191,10 @@ impl<const K: usize> AffTree<K> {
 pub fn phase_one(&self, parent_idx: TreeIndex, poly: &Polytope, counter: &mut PerformanceCounter) -> (r: NodeState)
     requires self.a().dom().contains(parent_idx),
         self.a()[parent_idx].value.state matches NodeState::FeasibleWitness(w) ==> w@.len() > 0,
-    ensures r is Indeterminate || (r matches NodeState::FeasibleWitness(v) && v@.len() > 0)
+    ensures r is Indeterminate || (r matches NodeState::FeasibleWitness(v) && v@.len() > 0),
+        // ASSUMED (mirror_points re-checks containment on the normalised rows with a margin; only a debug_assert re-checks `contains`; bounded: bc mirror):
+        // the repaired points pass the tolerance test of the polytope they were asked for
+        r matches NodeState::FeasibleWitness(v) ==> forall|i: int| 0 <= i < v@.len() ==> contains_tol(*poly, #[trigger] v@[i]),
 { unimplemented!() }
 
 //@fn src/pwl/afftree.rs | impl<const K: usize> AffTree<K> | polyhedra
@@ -234,6 +241,9 @@ impl AffTree<2> {
         // ... and a run during which the LP layer always decides (no Error, every Optimal point inside its polytope) ends in such a tree:
         // together, a second run changes nothing
         lp_decides() ==> all_decided(final(self).a(), old(self).tree.root.unwrap()),
+        // C05 (tree level): if at entry every cached witness satisfies, up to the containment tolerance 1e-8, every half-space on the path of its node,
+        // then so does every witness cached in the resulting tree - for the paths of the RESULTING tree (decisions spliced out, subtrees removed)
+        wit_inv(old(self).a(), old(self).a()) ==> wit_inv(final(self).a(), final(self).a()),
         // COROLLARY - C03 for infeasible_elimination reduced to the soundness of the LP layer: if every Infeasible LP answer is right and no input reaches
         // a node cached infeasible at entry, the function is unchanged for EVERY input of the tree's dimension
         lp_sound(old(self).in_dim) && entry_marks_sound(old(self).a(), old(self).tree.root.unwrap()) ==>
@@ -256,6 +266,7 @@ impl AffTree<2> {
             lemma_reg_init(a0, root);
             lemma_top_agrees(a0, self.a(), root, g_stack, vis, root, d0, self.in_dim);
             lemma_dec_from_shape(a0, self.in_dim);
+            lemma_wc_init(a0);
         }
 //@loop 1
             invariant_except_break
@@ -277,6 +288,7 @@ impl AffTree<2> {
                 regions_ok(a0, hs, root, vp, self.in_dim),
                 all_decided(a0, root) ==> self.a() == a0 && to_remove@.len() == 0,
                 kids_inv(self.a(), root, g_stack, vis, None), dec_inv(self.a(), root, vis, None),
+                wit_cond(a0, self.a()), emb_inv(a0, self.a()),
             ensures g_stack.len() == 0,
             decreases d0.len() - vis.len()
 //@hint loop 1 start
@@ -300,6 +312,9 @@ impl AffTree<2> {
                     if data.depth == 0 { assert(a0[data.index].parent is None); } else { assert(p1[0] == path[0]); }
                 }
                 path = p1;
+                assert(s0.len() > 0 && s0.last() == data);
+                assert(self.a()[data.index].parent == a0[data.index].parent);
+                assert(data.depth == 0 ==> data.index == root);
             }
             let ghost g_next = iter;
 //@hint before#1 continue;
@@ -336,6 +351,12 @@ impl AffTree<2> {
                 assert(path.last() == node_idx);
                 lemma_region_covers(a0, hs, root, iter, path, poly, self.in_dim);
             }
+//@hint after let mut state = self.phase_inh(
+            proof { lemma_wc_inh(a0, self.a(), iter, path, parent_idx, *hyperplane, state); }
+//@hint after state = self.phase_one(
+                proof { lemma_wit_poly(a0, iter, path, root, poly, state); }
+//@hint after state = self.phase_two(
+                proof { lemma_wit_poly(a0, iter, path, root, poly, state); }
 //@hint after to_remove.push((label, parent_idx));
                 proof {
                     assert forall|j: int| 0 <= j < to_remove@.len() implies (#[trigger] to_remove@[j]).0 < 2 by {
@@ -377,6 +398,7 @@ impl AffTree<2> {
                     lemma_kd_settle_keep(self.a(), root, s0, s1, lp1, data, vis);
                 }
                 lemma_tr_write(a_b, self.a(), tr0, vis0, node_idx, skipped, label, parent_idx);
+                lemma_wc_write(a0, a_b, self.a(), node_idx);
                 assert(to_remove@ =~= (if skipped { tr0.push((label, parent_idx)) } else { tr0 }));
             }
 //@hint before self.forward_if_redundant(parent_idx);
@@ -394,6 +416,7 @@ impl AffTree<2> {
                     lemma_kd_forward(a_f, self.a(), root, s_cur, vis, parent_idx);
                     lemma_fwd_slots(a_f, self.a(), root, parent_idx);
                     lemma_reg_forward(a0, a_f, self.a(), root, s_cur, vis, d0, parent_idx);
+                    lemma_wc_forward(a0, a_f, self.a(), root, parent_idx);
                 }
 //@hint loop 1 end
             proof {
@@ -416,12 +439,14 @@ impl AffTree<2> {
                 regions_ok(a0, hs, root, vp, self.in_dim), wf_at(a0, Some(root)),
                 all_decided(a0, root) ==> self.a() == a0 && to_remove@.len() == 0,
                 kids_inv(self.a(), root, Seq::<DfsNodeData>::empty(), vis, None), dec_inv(self.a(), root, vis, None),
+                wit_cond(a0, self.a()), emb_inv(a0, self.a()),
             decreases to_remove@.len() - __j
 //@hint loop 2 after
         proof {
             lemma_sem_final(a0, hs, self.a(), root, b); lemma_regions_final(a0, hs, root, vp, self.in_dim);
             if lp_sound(self.in_dim) && entry_marks_sound(a0, root) { lemma_unconditional(a0, self.a(), root, b, vp, self.in_dim); }
             if lp_decides() { lemma_kd_final(self.a(), root, vis); }
+            lemma_wc_final(a0, self.a());
         }
 //@hint before let _ = self.tree.try_remove_child(node, label);
                 let ghost a_r = self.a();
@@ -437,6 +462,7 @@ impl AffTree<2> {
                     lemma_tr_remove(a_r, self.a(), to_remove@, vis, node, label, e);
                     lemma_kd_remove(a_r, self.a(), root, vis, node, label, e);
                     lemma_kept_removed(a0, a_r, self.a(), self.in_dim, node, label, e);
+                    lemma_wc_removed(a0, a_r, self.a(), node, label, e);
                 }
 //@end
 }
